@@ -712,6 +712,7 @@ type workload struct {
 	prefix     string
 	nidx       int
 	untyped    bool
+	kind       string // "" = Init first on an empty database
 	ops1, ops2 []op
 }
 
@@ -721,7 +722,7 @@ func genWorkload(r *Rng, w int, thorough bool) workload {
 		wl.prefix = "pfx"
 	}
 	// quick: typed store without prefix, untyped store with prefix, both with two indexes
-	wl.untyped = (w/2)%2 == 1 || w == 1
+	wl.untyped = w == 1 || w == 3 || (w >= 4 && (w/2)%2 == 1)
 	if w >= 2 && (w/4)%2 == 1 {
 		wl.nidx = 1
 	}
@@ -746,8 +747,46 @@ func genWorkload(r *Rng, w int, thorough bool) workload {
 	if thorough {
 		n = 8 + r.Intn(8)
 	}
-	wl.ops1 = append([]op{{K: "init", Seeds: seeds}}, genOps(r, live, seeds, n, true)...)
-	wl.ops2 = append([]op{{K: "init", Seeds: seeds}}, genOps(r, live, seeds, 3+r.Intn(3), false)...)
+	initOp := op{K: "init", Seeds: seeds}
+	variant := 0 // 0: Init first on an empty database
+	if (!thorough && w == 2) || (thorough && w%5 == 3) {
+		variant = 1 // values under all / some seed ids exist BEFORE the first Init (it creates nothing / less)
+	} else if (!thorough && w == 3) || (thorough && w%5 == 4) {
+		variant = 2 // the first Init has an EMPTY seed set, later Inits a non-empty one
+	}
+	switch variant {
+	case 0:
+		wl.ops1 = append([]op{initOp}, genOps(r, live, seeds, n, true)...)
+	case 1:
+		all := !thorough || r.Bool()
+		var pre []op
+		for i, sd := range seeds {
+			if all || i == 0 {
+				v := val{r.Pick(avals), r.Pick(bvals)}
+				pre = append(pre, op{K: "create", ID: sd.ID, A: v.A, B: v.B})
+				live[sd.ID] = v
+			}
+		}
+		wl.kind = map[bool]string{true: "creates-of-all-seed-ids-before-first-Init", false: "creates-of-some-seed-ids-before-first-Init"}[all]
+		wl.ops1 = append(append(pre, initOp), genOps(r, live, seeds, 6, true)...)
+		// an acknowledged Delete of a seed id followed by Init again, in the same lifetime
+		wl.ops1 = append(wl.ops1, op{K: "delete", ID: seeds[0].ID}, initOp, op{K: "create", ID: "n9", A: "x"})
+		delete(live, seeds[0].ID)
+		live["n9"] = val{"x", ""}
+	case 2:
+		wl.kind = "first-Init-with-empty-seed-set"
+		for k := range live {
+			delete(live, k)
+		}
+		v := val{r.Pick(avals), r.Pick(bvals)}
+		live[seeds[0].ID] = v
+		wl.ops1 = []op{{K: "init"}, {K: "create", ID: seeds[0].ID, A: v.A, B: v.B}, initOp}
+		wl.ops1 = append(wl.ops1, genOps(r, live, seeds, 4, false)...)
+		wl.ops1 = append(wl.ops1, op{K: "delete", ID: seeds[0].ID}, initOp, op{K: "create", ID: "n9", A: "y", B: "u"})
+		delete(live, seeds[0].ID)
+		live["n9"] = val{"y", "u"}
+	}
+	wl.ops2 = append([]op{initOp}, genOps(r, live, seeds, 3+r.Intn(3), false)...)
 	return wl
 }
 
@@ -799,7 +838,7 @@ func main() {
 		}
 		descs = append(descs, d)
 	} else {
-		nw := 2
+		nw := 4
 		if thorough {
 			nw = 40
 		}
@@ -818,6 +857,9 @@ func main() {
 		kill2 := []string{"init-seed-set:1", "init-before-marker:1", "create-before:1", "create-committed:1",
 			"update-before:1", "update-committed:1", "delete-committed:1", "index-before:1", "index-committed:1", "index-before:2"}
 		for w, wl := range wls {
+			if wl.kind != "" {
+				dist["workloads-"+wl.kind]++
+			}
 			descs = append(descs, dry[w])
 			hits := douts[w].first.hits
 			for pi := 1; pi < len(points); pi++ {
